@@ -52,6 +52,21 @@ def gen_cases(tier, seed):
         rng = bases.rng_for("C08", seed, tier, "displaced", la, lb)
         shells, classes = bases.displaced_pair(rng, la, lb)
         cases.append({"shells": shells, "transform": None, "classes": classes + ["T:none", "nsh:2", "types:" + "".join(s_["t"] for s_ in shells)], "cost": 40})
+    # the whole molecule far from the coordinate origin (the angular momentum is taken about the origin), with a transformation:
+    # 26..60 bohr, where a "local origin" strategy would switch on, and 300..3000 bohr
+    for k in range(8 if tier == "quick" else 96):
+        rng = bases.rng_for("C08", seed, tier, "far-T", k)
+        nsh = int(rng.integers(1, 4))
+        ls = [int(x) for x in rng.integers(0, 4, size=nsh)]
+        shells, classes = bases.rand_basis(rng, ls, scale=1.0, geom="general", emax_fn=lambda l: min(bases.cap(l), 100.0), Kmax=3, Mmax=2)
+        u = rng.normal(size=3)
+        u /= np.linalg.norm(u)
+        off = u * float(rng.uniform(26.0, 60.0) if k % 3 else rng.uniform(300.0, 3000.0))
+        for s_ in shells:
+            s_["c"] = [float(v) for v in np.array(s_["c"]) + off]
+        ntot = sum(bases.nfunc(s_) for s_ in shells)
+        T, tcls = bases.rand_transform(rng, ntot, ["orth", "fewer", "more", "general"][k % 4])
+        cases.append({"shells": shells, "transform": T, "classes": classes + [tcls, "far-from-origin+transform", "nsh:%d" % nsh, "types:" + "".join(s_["t"] for s_ in shells)], "cost": 60})
     cases += bases.dup_variants("C08", seed, tier, cases, 5, ok=lambda c: c.get("transform") is None)  # one shell listed twice as the same object
     cases += bases.argrep_variants("C08", seed, tier, cases, 5, ok=lambda c: "shells" in c and c.get("kind") in (None, "whole", "kernel", "perm", "real"))  # constructor arguments in other in-memory representations
     return cases
